@@ -152,3 +152,50 @@ func init() {
 		}
 	}
 }
+
+func init() {
+	// limbo:<prov> — for every distinct notification sequence: declared next stages of a finished stage that are neither
+	// finished nor failed by the end of the sequence.
+	debugHooks["limbo"] = func(c *Ctx, arg string) {
+		ts := c.stepTraces(arg)
+		pkg := pkgPlugin
+		if arg == "foreach" {
+			pkg = pkgForeach
+		}
+		stages := c.newPlit(pkg).lifecycleStages()
+		agg := map[string]int{}
+		for _, si := range distinctSequences(ts) {
+			fin, failed := map[string]bool{}, map[string]bool{}
+			for _, e := range si.notifs {
+				switch e.Kind {
+				case "change":
+					if e.Args[0] != "nil" {
+						fin[e.Args[0]] = true
+					}
+				case "complete":
+					fin[e.Args[0]] = true
+				case "fail":
+					failed[e.Args[0]] = true
+				}
+			}
+			for s := range fin {
+				for n, k := range stages[s].nexts {
+					if !fin[n] && !failed[n] {
+						agg[s+" -> "+n+" ("+k+")"]++
+					}
+				}
+			}
+		}
+		var keys []string
+		for k := range agg {
+			keys = append(keys, k)
+		}
+		sort.Strings(keys)
+		for _, k := range keys {
+			fmt.Printf("%5d sequences leave %s in limbo\n", agg[k], k)
+		}
+		for id, sd := range stages {
+			fmt.Printf("stage %s nexts=%v\n", id, sd.nexts)
+		}
+	}
+}
